@@ -95,7 +95,7 @@ def scen(sid, kind, points, period, cfgname, sfx=""):
     label = "%s pts=%s period=%s [%s]" % (kind, " ".join("%g:%g" % p for p in points), period, cfgname)
     acts = []
     if kind in ("speed", "hstate"):
-        c.add("host", h, 1, S)
+        c.add("host", h, 1 if kind == "speed" else 4, S)      # state scenarios: x, y, z each on their own core
         c.add("profile", kind, h, per, -1, fmt_pts(points, 1))
         c.add("act", c.n("x" + sfx), "exec", 0, h, W_SPAN * S)
         acts.append(("x" + sfx, 0, W_SPAN))
@@ -105,7 +105,7 @@ def scen(sid, kind, points, period, cfgname, sfx=""):
             acts += [("y" + sfx, 2.5, 0.25), ("z" + sfx, 6.5, 0.25)]
     else:
         c.add("host", a, 1, S).add("host", b, 1, S)
-        c.add("link", l, BW, LAT0 if kind == "lat" else 0, "SHARED")
+        c.add("link", l, BW, LAT0 if kind == "lat" else 0, "FATPIPE" if kind == "lstate" else "SHARED")
         c.add("route", a, b, l)
         scale = {"bw": BW, "lat": LAT0, "lstate": 1}[kind]
         c.add("profile", kind, l, per, -1, fmt_pts(points, scale))
@@ -146,9 +146,19 @@ def bounds_for(ctx):
                             continue        # the TI model only accepts repeating speed profiles
                         s_ = scen("%s%d" % (kind[0] + kind[-1], len(sc)), kind, pts, period, cfgname)
                         sc.append(s_)
-                out += pack("%s%d%s_" % (kind, n, cfgname), CFGS[cfgname], sc, PACK, HEAD)
+                head = HEAD + (["skipavail 1"] if (cfgname == "TI" and n == 1) else [])
+                out += pack("%s%d%s_" % (kind, n, cfgname), CFGS[cfgname], sc, PACK, head)
             return out
         return gen
+
+    def g_ti_avail():
+        # Host::get_available_speed() under cpu/optim:TI on hosts whose speed is constant (no profile / one point):
+        # each scenario alone in its simulation, because the call crashes on the unchanged tree
+        sc = [scen("ta%d" % i, "speed", pts, 4, "TI, get_available_speed sampled") for i, pts in
+              enumerate([((0, 1),), ((0, 0.5),), ((2, 0.5),)])]
+        for s_ in sc:
+            s_.meta["ti_avail"] = True
+        return pack("tiavail", CFGS["TI"], sc, 1, HEAD)
 
     for n in range(1, maxpts + 1):
         B.append(("host speed profiles with %d point(s) (Lazy, Full, TI)" % n, g("speed", n, ("Lazy", "Full", "TI"))))
@@ -156,6 +166,7 @@ def bounds_for(ctx):
         B.append(("link latency profiles with %d point(s) (Lazy, Full)" % n, g("lat", n, ("Lazy", "Full"))))
         B.append(("host state profiles with %d point(s) (Lazy, Full)" % n, g("hstate", n, ("Lazy", "Full") if n < 4 else ("Lazy",))))
         B.append(("link state profiles with %d point(s) (Lazy, Full)" % n, g("lstate", n, ("Lazy", "Full") if n < 4 else ("Lazy",))))
+    B.insert(1, ("cpu/optim:TI: availability of a host with a constant speed (3 profiles)", g_ti_avail))
     if not ctx.quick:
         def g_two():
             # two resources at once: a speed profile on the host of an exec and a bandwidth profile on the link of a comm
@@ -197,6 +208,10 @@ def judge_part(sc, m, r, fails):
         want = value_at(fp, P, initial, F(s["t"])) * (F(scale) if num else 1)
         got = F(v[field])
         nsamp += 1
+        if kind == "speed" and got == -1:      # availability not sampled (skipavail)
+            if want != initial:
+                changed = True
+            continue
         if want != initial * (F(scale) if num else 1):
             changed = True
         if not close(got, want, 1e-12, 0):
@@ -239,6 +254,8 @@ def judge_part(sc, m, r, fails):
                     want_fin, want_state = nat, None
                 else:
                     want_fin, want_state = nat, "FINISHED"
+        if o["state"] == "FAILED":
+            o = dict(o, finish=o["kdate"])      # a failed activity has no finish time: use the date the kernel failed it
         if want_state and o["state"] != want_state:
             fails.append(("C22 %s state" % lab, "%s ended %s at %.17g, expected %s at %.17g" % (
                 aid, o["state"], o["finish"], want_state, float(want_fin))))
@@ -248,9 +265,27 @@ def judge_part(sc, m, r, fails):
     return changed
 
 
+def group(m, fails):
+    """One key per root cause for the systematic deviations of the unchanged tree (details stay in `what`)."""
+    out = []
+    for k, w in fails:
+        if m["kind"] == "speed" and "[TI" in m["label"] and m["points"][0][0] > 0 and (k.endswith(" dates") or k.endswith(" value") or k.endswith(" samples")):
+            k2 = "C22 cpu/optim:TI speed profile whose first event is after t=0: wrong " + ("availability" if not k.endswith(" dates") else "integration")
+        elif m["kind"] == "bw" and k.endswith(" dates") and any(v > 1 for _, v in m["points"]):
+            k2 = "C22 bw a running comm never goes faster than the bandwidth its link had when it started"
+        else:
+            out.append((k, w))
+            continue
+        out.append((k2, m["label"] + ": " + w))
+    return out
+
+
 def judge(sc, r, case=None):
     m = sc.meta
     if r["status"] != "exit=0":
+        if m.get("ti_avail"):
+            return [("C22 cpu/optim:TI Host::get_available_speed crashes on a host whose speed is constant",
+                     "%s: harness ended with %s: %s" % (m["label"], r["status"], r["raw"][-200:]))], True, "crash"
         return [("C22 %s harness-status" % m["label"], "harness ended with %s: %s" % (r["status"], r["raw"][-300:]))], None, "crash"
     fails = []
     if m["kind"] == "two":
@@ -258,6 +293,8 @@ def judge(sc, r, case=None):
         changed = all(ch)
     else:
         changed = judge_part(sc, m, r, fails)
+    if m["kind"] != "two":
+        fails = group(m, fails)
     seen = set()
     fails = [f for f in fails if not (f[0] in seen or seen.add(f[0]))]
     return fails, changed, m["kind"] + ("/changes" if changed else "/constant") + ("!" if fails else "")
